@@ -50,7 +50,9 @@ class SessionResult:
     pass
 
 
-def run_session(proj: Project, args=(), env=None, stdin=None, timeout=120, hashseed="0", plugin=True, failpoint=None):
+def run_session(proj: Project, args=(), env=None, stdin=None, timeout=120, hashseed="0", plugin=True, failpoint=None, cwd_sub=None):
+    """cwd_sub: start pytest in this (created, otherwise empty) sub-directory of the project; the caller
+    passes the path of the tests (e.g. `..`) among args"""
     junit = proj.dir / "junit.xml"
     audit = proj.dir / "audit.jsonl"
     for f in (junit, audit):
@@ -69,7 +71,11 @@ def run_session(proj: Project, args=(), env=None, stdin=None, timeout=120, hashs
     cmd += list(args)
     r = SessionResult()
     try:
-        p = subprocess.run(cmd, cwd=str(proj.dir), env=e, input=stdin, capture_output=True, timeout=timeout)
+        cwd = proj.dir
+        if cwd_sub:
+            cwd = proj.dir / cwd_sub
+            cwd.mkdir(parents=True, exist_ok=True)
+        p = subprocess.run(cmd, cwd=str(cwd), env=e, input=stdin, capture_output=True, timeout=timeout)
         r.exit = p.returncode
         r.stdout = p.stdout.decode("utf-8", "replace")
         r.stderr = p.stderr.decode("utf-8", "replace")
